@@ -170,9 +170,10 @@ func Gen(t *rapid.T) Case {
 			}
 
 			if c.Flavour == "ssh" && rapid.IntRange(0, 3).Draw(t, "rejectIsSSHError") == 0 {
-				// the ssh client's own line after a wrong password, followed at once by its next
-				// password prompt: a recognised failure message all the same
-				c.Rounds = append(c.Rounds, Round{K: "error", Text: rapid.SampledFrom([]string{"Permission denied, please try again.", "admin@10.0.0.1: Permission denied (publickey,password)."}).Draw(t, "midError")})
+				// a failure line of the ssh client (one of those that mean it has given up; its
+				// retry notice "please try again" is left out: whether that one counts as a failure
+				// message is the library's call), followed by more of the dialogue in the same read
+				c.Rounds = append(c.Rounds, Round{K: "error", Text: rapid.SampledFrom([]string{"admin@10.0.0.1: Permission denied (publickey,password).", "Host key verification failed."}).Draw(t, "midError")})
 			} else {
 				c.Rounds = append(c.Rounds, Round{K: "reject", Text: msg})
 			}
@@ -734,7 +735,16 @@ func Run(c Case) (res Result) {
 
 			pipe.Reset(dev2)
 
+			opens2 := pipe.Opens
 			err2 := d.Open()
+
+			if err2 != nil && pipe.Opens == opens2 {
+				// the driver refuses a second session outright, without touching the transport:
+				// nothing in the statement promises that a closed driver opens again
+				res.Verdict = ev.Verdict{OK: true, Infeasible: true, Classes: []string{"second-session-refused"}}
+
+				return res
+			}
 
 			switch {
 			case c.Reopen == "same" && err2 != nil:
